@@ -233,7 +233,8 @@ fn is_capture(b: &Board, m: ChessMove) -> bool {
 pub fn playout(rng: &mut Rng, start: Board, plies: usize, tag: &'static str, out: &mut Vec<Tagged>) {
     let mut b = start;
     for _ in 0..plies {
-        let moves: Vec<ChessMove> = b.legals().collect();
+        crate::common::ctx(&format!("pos legals {}", pos64(&view(&b))));
+        let Some(moves) = crate::common::guard(|| b.legals().collect::<Vec<ChessMove>>()) else { break };
         if moves.is_empty() {
             break;
         }
@@ -263,7 +264,7 @@ pub fn playout(rng: &mut Rng, start: Board, plies: usize, tag: &'static str, out
                     w += 20; // en passant
                 }
             }
-            if let Some(nb) = b.move_new(m) {
+            if let Some(Some(nb)) = crate::common::guard(|| b.move_new(m)) {
                 if nb.in_check() {
                     w += 5;
                 }
@@ -280,9 +281,9 @@ pub fn playout(rng: &mut Rng, start: Board, plies: usize, tag: &'static str, out
             }
             x -= *w;
         }
-        match b.move_new(moves[idx]) {
-            Some(nb) => b = nb,
-            None => break,
+        match crate::common::guard(|| b.move_new(moves[idx])) {
+            Some(Some(nb)) => b = nb,
+            _ => break,
         }
         out.push(Tagged { board: b, tag });
     }
@@ -308,7 +309,9 @@ fn rand_piece(rng: &mut Rng, white: bool, allow_pawn: bool) -> u8 {
 }
 
 fn try_parse(sq: &[u8; 64], white: bool, rights: u8, ep: Option<u8>, half: u32, full: u32) -> Option<Board> {
-    chess_movegen::fen::parse_fen(fen_of(sq, white, rights, ep, half, full).as_bytes()).ok()
+    let fen = fen_of(sq, white, rights, ep, half, full);
+    crate::common::ctx(&format!("fen parse {}", crate::common::hexbytes(fen.as_bytes())));
+    crate::common::guard(|| chess_movegen::fen::parse_fen(fen.as_bytes()).ok()).flatten()
 }
 
 fn clocks(rng: &mut Rng) -> (u32, u32) {
